@@ -36,6 +36,8 @@ var intLits = func() []string {
 	return lits
 }()
 
+var midLits = roundingMidpoints()
+
 var floatLits = []string{
 	"0.0", "1.0", "2.0", "0.5", "1.5", "2.5", "0.1", "0.2", "0.3", "3.0", "10.0", "1e2", ".25", "1.",
 	"1e308", "1.7976931348623157e308", "1.7976931348623158e308", "1.797693134862315807e308", "1.7976931348623159e308", "1e309",
@@ -100,6 +102,12 @@ func (g *exprGen) pick(s []string) string { return s[g.r.Intn(len(s))] }
 func (g *exprGen) numLit() string {
 	var s string
 	switch n := g.r.Intn(100); {
+	case n < 8:
+		return g.pick(boundaryOperands)
+	case n < 14:
+		return g.pick(smallOperands)
+	case n < 18:
+		return g.pick(midLits)
 	case n < 45:
 		s = g.pick(intLits)
 	case n < 75:
